@@ -86,15 +86,16 @@ def exact_autocov(ak, sigma, nl):
 
 def gen_signal(nrng, N, kind):
     if kind == 'real':
-        return nrng.randn(N) * nrng.choice([1.0, 10.0, 1e-3]) + nrng.choice([0.0, 0.0, 0.5])
+        sc = nrng.choice([1.0, 10.0, 1e-3, 1e-6])
+        return nrng.randn(N) * sc + nrng.choice([0.0, 0.0, 0.5]) * sc
     if kind == 'complex':
-        return (nrng.randn(N) + 1j * nrng.randn(N)) * nrng.choice([1.0, 5.0])
+        return (nrng.randn(N) + 1j * nrng.randn(N)) * nrng.choice([1.0, 5.0, 1e-6])
     from scipy.signal import lfilter
     cplx = kind == 'coloured-complex'
     p = nrng.randint(1, 5)
     ak = stable_coefs(nrng, p, cplx, 0.97)
     v = nrng.randn(N + 200) + (1j * nrng.randn(N + 200) if cplx else 0)
-    return lfilter([1.0], np.r_[1, -ak], v)[200:]
+    return lfilter([1.0], np.r_[1, -ak], v)[200:] * nrng.choice([1.0, 1.0, 1e-6, 1e3])
 
 
 KINDS = ['real', 'complex', 'coloured-real', 'coloured-complex']
@@ -285,8 +286,9 @@ def judge(m, impl, clause):
         if len(u) != n_exp or len(v) != n_exp:
             return fail('shape', 'returned lengths %d/%d, expected %d' % (len(u), len(v), n_exp))
         worst, sc = 0.0, max(np.abs(u).max(), 1e-300)
-        for n in range(P, len(u)):
-            pred = sum(co[k] * u[n - 1 - k] for k in range(P)) + np.sqrt(m['sigma']) * v[n]
+        # without dropped transients the first P samples obey the recursion from a zero state as well
+        for n in range(0 if m['drop'] == 0 else P, len(u)):
+            pred = sum(co[k] * u[n - 1 - k] for k in range(min(n, P))) + np.sqrt(m['sigma']) * v[n]
             worst = max(worst, abs(pred - u[n]))
         if worst > 1e-9 * sc:
             return fail('recursion', 'u[n] - sum a_k u[n-k] - sqrt(sigma) v[n] = %.3g (scale %.3g)' % (worst, sc))
@@ -338,8 +340,9 @@ def cases(rng, tier, seed):
     n_sup = 200 if not big else 4000
     for i in range(n_sup):
         sub = i % 3
-        cplx = bool(nrng.rand() < 0.5)
-        order = int(nrng.randint(1, 9))
+        cplx = bool(nrng.rand() < 0.6)
+        order = int(nrng.randint(2, 9)) if cplx else int(nrng.randint(1, 9))   # complex + order >= 2: conjugation slips show
+        scale = float(nrng.choice([1.0, 1.0, 1e-12, 1e6]))                     # tiny / large covariances
         if sub == 0:      # exact autocovariance of a drawn stable process -> exact recovery
             ak = stable_coefs(nrng, order, cplx, 0.85)
             sig = float(nrng.uniform(0.2, 3.0))
@@ -360,6 +363,9 @@ def cases(rng, tier, seed):
             extra, tag = {'psd_valid': True}, 'biased'
         if not cplx:
             r = r.real.astype(float)
+        r = r * scale
+        if 'true_sigma' in extra:
+            extra['true_sigma'] = extra['true_sigma'] * scale
         for op in ('ld', 'yw'):
             est_case(op, r, order, cplx, 'est/%s/supplied/%s' % (op.upper(), tag), extra)
     # --- AR_psd
@@ -367,7 +373,7 @@ def cases(rng, tier, seed):
     for i in range(n_psd):
         cplx = bool(i % 2)
         one = bool((i // 2) % 2)
-        nf = int(nrng.choice([8, 9, 16, 33, 64] + ([255, 1024] if big else [])))
+        nf = int(nrng.choice([1, 2, 3, 4, 5, 8, 9, 16, 33, 64] + ([255, 1024] if big else [])))   # incl. grids coarser than the order
         p = int(nrng.randint(1, 9))
         ak = stable_coefs(nrng, p, cplx, 0.9)
         sig = float(nrng.choice([1.0, 0.5, 2.0, nrng.uniform(0.01, 10)]))
@@ -380,7 +386,7 @@ def cases(rng, tier, seed):
         p = int(nrng.randint(1, 7))
         co = stable_coefs(nrng, p, cplx, 0.9)
         drop = int(nrng.choice([0, 0, 3, 10]))
-        N = int(nrng.choice([8, 20, 50] + ([512] if big else [])))
+        N = int(nrng.choice([1, 2, 3, 8, 20, 50] + ([512] if big else [])))     # incl. fewer samples than coefficients
         v = nrng.randn(N + drop) + (1j * nrng.randn(N + drop) if cplx else 0)
         sig = float(nrng.choice([1.0, 2.0, 0.25, nrng.uniform(0.1, 5)]))
         m = {'op': 'gen', 'drop': drop, 'sigma': sig, 'coefs': clist(co), 'v': clist(v), 'cplx': cplx}
